@@ -123,17 +123,17 @@ func Specs() map[string]*PropSpec {
 	}
 	c19 := []Inst{{Pkg: "x/coinomics", Fn: "VerifC19_Coinomics", Params: pm()}, {Pkg: "x/feemarket", Fn: "VerifC19_Feemarket", Params: pm()},
 		{Pkg: "x/liquidvesting", Fn: "VerifC19_Liquidvesting", Params: pm("denoms", "2", "periods", "2")}, {Pkg: "x/ucdao/keeper", Fn: "VerifC19_Ucdao", Params: pm("accounts", "2")},
-		{Pkg: "x/evm", Fn: "VerifC19_Evm", Params: pm("accounts", "1")}, {Pkg: "x/evm", Fn: "VerifC19_Evm", Params: pm("accounts", "2", "varyParams", "0")}}
+		{Pkg: "x/evm", Fn: "VerifC19_Evm", Params: pm("accounts", "1")}, {Pkg: "x/evm", Fn: "VerifC19_Evm", Params: pm("accounts", "2", "varyParams", "0")}, {Pkg: "x/erc20", Fn: "VerifC19_Erc20", Params: pm(), EngineReplay: true}}
 	c19t := []Inst{{Pkg: "x/coinomics", Fn: "VerifC19_Coinomics", Params: pm()}, {Pkg: "x/feemarket", Fn: "VerifC19_Feemarket", Params: pm()},
 		{Pkg: "x/liquidvesting", Fn: "VerifC19_Liquidvesting", Params: pm("denoms", "3", "periods", "3")}, {Pkg: "x/ucdao/keeper", Fn: "VerifC19_Ucdao", Params: pm("accounts", "3")},
-		{Pkg: "x/evm", Fn: "VerifC19_Evm", Params: pm("accounts", "2")}}
+		{Pkg: "x/evm", Fn: "VerifC19_Evm", Params: pm("accounts", "2")}, {Pkg: "x/erc20", Fn: "VerifC19_Erc20", Params: pm(), EngineReplay: true}}
 	m["C19"] = &PropSpec{
-		ID: "C19", Pkgs: []string{"./x/coinomics", "./x/feemarket", "./x/liquidvesting", "./x/ucdao/keeper", "./x/evm"}, Quick: c19, Thorough: c19t,
+		ID: "C19", Pkgs: []string{"./x/coinomics", "./x/feemarket", "./x/liquidvesting", "./x/ucdao/keeper", "./x/evm", "./x/erc20"}, Quick: c19, Thorough: c19t,
 		Bounds: map[string]string{
-			"quick":    "coinomics, fee market, liquid vesting (<= 2 denoms x 2 periods), UC DAO (2 accounts x 2 denominations): arbitrary module state S (every stored entry independently present/absent, every integer symbolic), Export(Init(Export(S))) compared field by field with Export(S) and through the keeper getters; x/evm: <= 2 EVM accounts (3 code shapes incl. none, 2 storage slots each absent or one of 3 values, a plain account interleaved, 4 parameter switches) - every combination enumerated as paths, compared through GetCode/GetState and the exported document",
+			"quick":    "coinomics, fee market, liquid vesting (<= 2 denoms x 2 periods), UC DAO (2 accounts x 2 denominations): arbitrary module state S (every stored entry independently present/absent, every integer symbolic), Export(Init(Export(S))) compared field by field with Export(S) and through the keeper getters; x/evm: <= 2 EVM accounts (3 code shapes incl. none, 2 storage slots each absent or one of 3 values, a plain account interleaved, 4 parameter switches) - every combination enumerated as paths, compared through GetCode/GetState and the exported document; x/erc20: every subset of 3 token pairs (coin-, ERC20- and IBC-denominated), each enabled or not, module- or externally owned, both parameters - compared field by field and through the lookups by denomination and by contract address",
 			"thorough": "liquid vesting <= 3 denoms x 3 periods, UC DAO 3 accounts, x/evm 2 accounts with all parameter switches",
 		},
-		Outside:     []string{"x/evm beyond the bounded shapes (large code, many slots; the x/evm harness has concrete inputs after the symbolic choice: exhaustive enumeration of the bounded space), x/erc20 token pairs, vesting accounts in x/auth, x/epochs (its InitGenesis re-anchors start height/time by design), app/export.go zero-height preparation", "protobuf/JSON encoding of the genesis document (typed blobs)"},
+		Outside:     []string{"x/evm beyond the bounded shapes (large code, many slots; the x/evm harness has concrete inputs after the symbolic choice: exhaustive enumeration of the bounded space), vesting accounts in x/auth, x/epochs (its InitGenesis re-anchors start height/time by design), app/export.go zero-height preparation", "protobuf/JSON encoding of the genesis document (typed blobs)"},
 		Assumptions: []string{"codec and gogoproto Marshal/Unmarshal are an inverse pair on typed blobs", "legacy param subspace = one typed blob"},
 		Stubs:       []string{"zzverif.MemStore", "c19AK (account keeper returning module accounts)"},
 	}
